@@ -31,17 +31,19 @@ theorem edit_remove (doc v : J) (loc : List Rfc.LStep) (hne : loc ≠ []) (h : l
     ∃ d, eraseAt doc loc = some d ∧ Patch.apply [.remove (locParts loc)] doc = .ok d :=
   Lemmas.edit_remove doc v loc hne h
 
-/-- Removing a member: it is gone, and nothing outside it changes (whatever the member is called). -/
+/-- Removing a member: it is gone, and every location that is neither inside nor above it keeps its
+    value (whatever the member is called). -/
 theorem remove_member_frame (doc d : J) (loc : List Rfc.LStep) (k : Str)
     (h : eraseAt doc (loc ++ [.name k]) = some d) (hwf : doc.wf = true) :
     locValue d (loc ++ [.name k]) = none ∧
-    ∀ loc', ¬ (loc ++ [.name k]) <+: loc' → locValue d loc' = locValue doc loc' :=
+    ∀ loc', ¬ Related (loc ++ [.name k]) loc' → locValue d loc' = locValue doc loc' :=
   Lemmas.eraseAt_member_spec doc d loc k h hwf
 
-/-- Removing an element: nothing outside the array changes, earlier elements stay, later ones shift by one. -/
+/-- Removing an element: every location that is neither inside nor above the array keeps its value,
+    earlier elements stay, later ones shift by one. -/
 theorem remove_element_frame (doc d : J) (loc : List Rfc.LStep) (n : Nat)
     (h : eraseAt doc (loc ++ [.index n]) = some d) :
-    (∀ loc', ¬ loc <+: loc' → locValue d loc' = locValue doc loc') ∧
+    (∀ loc', ¬ Related loc loc' → locValue d loc' = locValue doc loc') ∧
     (∀ m rest, m < n → locValue d (loc ++ .index m :: rest) = locValue doc (loc ++ .index m :: rest)) ∧
     (∀ m rest, n ≤ m → locValue d (loc ++ .index m :: rest) = locValue doc (loc ++ .index (m + 1) :: rest)) :=
   Lemmas.eraseAt_element_spec doc d loc n h
